@@ -144,7 +144,32 @@ def rule_graph_construction(ctx, r):
     r.check(td, con + "::targets", "targets = {target.name: target}", "the graph's target table is not keyed by target name", ft.where)
 
 
-def rule_endpoints(ctx, r):
+def graph_witness_summary(ctx, relations_only=False):
+    """(n_ok, differences, unsupported) over the witness workflows of evalhelpers.GRAPH_WITNESSES."""
+    from .evalhelpers import graph_witnesses
+    diffs, unsupported, n_ok = [], None, 0
+    for name, got, want in graph_witnesses(ctx):
+        if got[0] == "unsupported":
+            unsupported = got[1]
+            continue
+        if relations_only and want[0] == "raise":
+            if got[0] == "raise":
+                n_ok += 1
+            continue
+        if got == want:
+            n_ok += 1
+            continue
+        if got[0] == "ok" and want[0] == "ok":
+            keys = [k for k in want[1] if got[1].get(k) != want[1][k]]
+            diffs.append(f"workflow `{name}`: {keys[0]} is {got[1].get(keys[0])}, the file relation prescribes {want[1][keys[0]]}")
+        elif want[0] == "raise":
+            diffs.append(f"workflow `{name}` is {'accepted' if got[0] == 'ok' else 'rejected with ' + str(got[1])}, it must be rejected with {want[1]}")
+        else:
+            diffs.append(f"well-formed workflow `{name}` is rejected with {got[1]}")
+    return n_ok, diffs, unsupported
+
+
+def rule_endpoints_formula(ctx, r):
     idx = ctx.index
     ep = idx.func(f"{CORE}:Graph.endpoints")
     rets = [n for n in walk_no_nested(ep.node) if isinstance(n, ast.Return)]
@@ -154,6 +179,10 @@ def rule_endpoints(ctx, r):
                  "{tfortinself.targets.values()ifnotself.dependents.get(t)}")
     r.check(ok, f"{ep.module.relpath}::{ep.qual}", "endpoints = all targets minus those something depends on",
             f"Graph.endpoints returns `{txt[:80]}`, not `targets - keys of dependents`", ep.where)
+
+
+def rule_endpoints(ctx, r):
+    idx = ctx.index
     # phantom keys: dependents is a defaultdict; a subscript load inserts a key, which removes that target from endpoints()
     res = ctx.resolver
     for name, root in res.command_roots().items():
@@ -175,42 +204,66 @@ def rule_endpoints(ctx, r):
 
 
 def rule_info(ctx, r):
+    """`gwf info` prints the graph's own relations under the right labels - the two printers are template-evaluated on a symbolic graph."""
+    import json as _json
+    from ..symeval import Obj, PureInterp, Raised, Unsupported
     idx = ctx.index
+    T = Obj("target", name="T", inputs=["in1"], outputs={"o": "out1"}, spec="SPEC-T\nline2", options={"cores": 2})
+    D1, D2, X1 = Obj("target", name="D1"), Obj("target", name="D2"), Obj("target", name="X1")
+    graph = Obj("graph", dependencies={T: [D1, D2]}, dependents={T: [X1]})
     pj = idx.func("gwf.plugins.info:print_json")
-    pairs = {}
-    for n in walk_no_nested(pj.node):
-        if isinstance(n, ast.Tuple) and len(n.elts) == 2 and isinstance(n.elts[0], ast.Constant) and n.elts[0].value in ("dependencies", "dependents", "inputs", "outputs", "spec", "options"):
-            pairs[n.elts[0].value] = ast.unparse(n.elts[1])
-    for label in ("dependencies", "dependents"):
-        r.check(f"graph.{label}[target]" in pairs.get(label, ""), f"{pj.module.relpath}::{pj.qual}::{label}", f"'{label}' <- graph.{label}[target]",
-                f"info reports `{pairs.get(label)}` under the label '{label}'", pj.where)
-    for label in ("inputs", "outputs", "spec"):
-        r.check(pairs.get(label) == f"target.{label}", f"{pj.module.relpath}::{pj.qual}::{label}", f"'{label}' <- target.{label}",
-                f"info reports `{pairs.get(label)}` under the label '{label}'", pj.where)
+    captured = []
+    hooks = {"json.dumps": lambda o, *a, **k: captured.append(o) or "JSON", "builtins.print": lambda *a, **k: None, "click.echo": lambda *a, **k: None}
+    try:
+        PureInterp(ctx, hooks=hooks).call(pj, ([T], graph), {})
+        rec = dict(captured[0]["T"]) if captured and "T" in captured[0] else None
+    except (Raised, Unsupported, Exception) as exc:
+        rec = f"<{exc}>"
+    want = {"dependencies": ["D1", "D2"], "dependents": ["X1"], "inputs": ["in1"], "outputs": {"o": "out1"}, "spec": "SPEC-T\nline2", "options": {"cores": 2}}
+    if isinstance(rec, dict):
+        for label, val in want.items():
+            got = rec.get(label)
+            if isinstance(got, (list, tuple)) and label in ("dependencies", "dependents"):
+                got = sorted(got)
+            r.check(got == val, f"{pj.module.relpath}::{pj.qual}::{label}", f"'{label}' <- the graph's / target's own {label}",
+                    f"`gwf info` (json) reports {got!r} under the label '{label}' for a target whose {label} are {val!r}", pj.where)
+    else:
+        r.violation(f"{pj.module.relpath}::{pj.qual}", f"the json printer cannot be followed ({rec})", pj.where)
     pp = idx.func("gwf.plugins.info:print_pretty")
-    seq = []
-    for st in ast.walk(pp.node):
-        if isinstance(st, ast.Expr) and isinstance(st.value, ast.Call):
-            seq.append(st.value)
-    label = None
-    got = {}
-    for c in seq:
-        if dotted(c.func) == "print_label" and c.args and isinstance(c.args[0], ast.Constant):
-            label = c.args[0].value
-        elif label and c.args:
-            got.setdefault(label, ast.unparse(c.args[0]))
-    r.check("graph.dependents[target]" in got.get("Dependents:", ""), f"{pp.module.relpath}::{pp.qual}::Dependents", "'Dependents:' <- graph.dependents[target]",
-            f"the pretty printer shows `{got.get('Dependents:')}` under 'Dependents:'", pp.where)
-    r.check(got.get("Inputs:") == "target.inputs" and got.get("Outputs:") == "target.outputs", f"{pp.module.relpath}::{pp.qual}::files", "Inputs/Outputs labels match",
-            f"the pretty printer shows inputs `{got.get('Inputs:')}` / outputs `{got.get('Outputs:')}`", pp.where)
+    lines = []
+    hooks = {"click.secho": lambda *a, **k: lines.append(a[0] if a else ""), "click.echo": lambda *a, **k: lines.append(a[0] if a else ""),
+             "click.format_filename": lambda v, *a, **k: v}
+    try:
+        T2 = Obj("target", name="T", inputs=["in1"], outputs=["out1"], spec="SPEC-T", options={})
+        PureInterp(ctx, hooks=hooks).call(pp, ([T2], Obj("graph", dependencies={T2: [D1]}, dependents={T2: [X1]})), {})
+    except (Raised, Unsupported, Exception) as exc:
+        lines = [f"<{exc}>"]
+    text = [str(l).strip() for l in lines]
+
+    def after(label):
+        if label in text:
+            i = text.index(label)
+            out = []
+            for l in text[i + 1:]:
+                if l.endswith(":") or l == "":
+                    break
+                out.append(l)
+            return out
+        return None
+
+    r.check(after("Dependents:") == ["X1"], f"{pp.module.relpath}::{pp.qual}::Dependents", "'Dependents:' <- graph.dependents[target]",
+            f"the pretty printer shows {after('Dependents:')} under 'Dependents:' for a target whose only dependent is X1", pp.where)
+    r.check(after("Inputs:") == ["in1"] and after("Outputs:") == ["out1"] and after("Name:") == ["T"], f"{pp.module.relpath}::{pp.qual}::files",
+            "Name/Inputs/Outputs labels match", f"the pretty printer shows name {after('Name:')}, inputs {after('Inputs:')}, outputs {after('Outputs:')}", pp.where)
 
 
 def run(ctx):
     r1 = ctx.rule("R1", "every path is fspath()-converted, joined to the target's working directory when relative, and normalised", min_instances=3)
     rule_norm_path(ctx, r1)
-    r2 = ctx.rule("R2", "provides / dependencies / dependents are written exactly as the file relation prescribes, producers registered first", min_instances=7)
-    rule_graph_construction(ctx, r2)
+    r2 = ctx.rule("R2", "provides / dependencies / dependents are written exactly as the file relation prescribes, producers registered first", min_instances=1)
+    ctx.structural_or_witness(r2, rule_graph_construction, lambda: graph_witness_summary(ctx, relations_only=True), "src/gwf/core.py::Graph.from_targets")
     r3 = ctx.rule("R3", "endpoints are the targets nothing depends on; no phantom entries in the defaultdicts before endpoints()", min_instances=2)
+    ctx.structural_or_witness(r3, rule_endpoints_formula, lambda: graph_witness_summary(ctx, relations_only=True), "src/gwf/core.py::Graph.endpoints")
     rule_endpoints(ctx, r3)
     r4 = ctx.rule("R4", "`gwf info` reports the graph's own relations under the right labels", min_instances=5)
     rule_info(ctx, r4)
